@@ -195,6 +195,50 @@ func HRaw(ctx erpc.CallCtx, arg *[]byte) ([]byte, *erpc.Status) {
 	return append([]byte(nil), (*arg)...), nil
 }
 
+// HRawForm answers with the request bytes as a form-encoded reply.
+func HRawForm(ctx erpc.CallCtx, arg *[]byte) ([]byte, *erpc.Status) {
+	ctx.SetBodyCodec(codec.ID_FORM)
+	return append([]byte(nil), (*arg)...), nil
+}
+
+// formNums is a caller's result with number fields of every width (form codec).
+type formNums struct {
+	Tok string `form:"tok"`
+	I8  int8   `form:"i8"`
+	U8  uint8  `form:"u8"`
+	I16 int16  `form:"i16"`
+	U16 uint16 `form:"u16"`
+	I32 int32  `form:"i32"`
+	U32 uint32 `form:"u32"`
+}
+
+// formNumberReply builds a form reply with one number field at / beyond its range; ok tells whether the text denotes a
+// value of that width (decided by strconv with the exact bit size, independent of the codec under test).
+func formNumberReply(idx int) (body string, ok bool) {
+	type fld struct {
+		key    string
+		bits   int
+		signed bool
+	}
+	f := []fld{{"i8", 8, true}, {"u8", 8, false}, {"i16", 16, true}, {"u16", 16, false}, {"i32", 32, true}, {"u32", 32, false}}[idx%6]
+	var vals []string
+	if f.signed {
+		max := int64(1)<<uint(f.bits-1) - 1
+		vals = []string{fmt.Sprint(max), fmt.Sprint(max + 1), fmt.Sprint(-max - 1), fmt.Sprint(-max - 2), fmt.Sprint(int64(1) << uint(f.bits)), "0", "-1"}
+	} else {
+		max := uint64(1)<<uint(f.bits) - 1
+		vals = []string{fmt.Sprint(max), fmt.Sprint(max + 1), fmt.Sprint(max + 256), fmt.Sprint(uint64(1) << 33), "0", "-1"}
+	}
+	v := vals[(idx/6)%len(vals)]
+	var err error
+	if f.signed {
+		_, err = strconv.ParseInt(v, 10, f.bits)
+	} else {
+		_, err = strconv.ParseUint(v, 10, f.bits)
+	}
+	return "tok=a&" + f.key + "=" + v, err == nil
+}
+
 var replyBodies = []string{`{"tok":"a","pay":"b"}`, `{"tok":"a"}}`, `{"tok":"a"} x`, `{"tok":"a"}{"tok":"b"}`, `{"tok":"a"`, `{"tok":"a"}]`, ` {"tok":"a"} `, `{"tok":"a"}` + "\n\n", `nul`, `{"tok":"a"},`}
 
 // veto plugin: vetoes calls carrying metadata Veto=<code>;<msghex>;<causehex> after the body was read.
@@ -392,6 +436,7 @@ func main() {
 			routes[kinds[i]] = srv.RouteCallFunc(f)
 		}
 		routes["raw-reply"] = srv.RouteCallFunc(HRaw)
+		routes["raw-reply-form"] = srv.RouteCallFunc(HRawForm)
 		var link *bed.Link
 		var err error
 		if t.ws {
@@ -417,9 +462,13 @@ func main() {
 			core.Add("reconnects", 1)
 		}
 		ks := kindsFor(t)
-		modes := []string{"reply-bytes", "status", "ok", "mismatch", "panic-string", "panic-error", "panic-status", "panic-nil", "unknown-route", "bad-body", "veto", "closed", "ctx-dead"}
+		modes := []string{"reply-form", "reply-bytes", "status", "ok", "mismatch", "panic-string", "panic-error", "panic-status", "panic-nil", "unknown-route", "bad-body", "veto", "closed", "ctx-dead"}
 		for _, mode := range modes {
-			for k := 0; k < perMode; k++ {
+			nk := perMode
+			if mode == "reply-form" {
+				nk = 42
+			}
+			for k := 0; k < nk; k++ {
 				caseNo++
 				kind := ks[r.Intn(len(ks))]
 				id := fmt.Sprintf("b%d.%s.%d", *batch, t.name, caseNo)
@@ -446,6 +495,18 @@ func main() {
 					body = []byte(rb)
 					result = new(tok.Arg)
 					predictedDecodable = json.Valid([]byte(rb)) && json.Unmarshal([]byte(rb), new(tok.Arg)) == nil
+				case "reply-form":
+					// a form-encoded reply with one number at / beyond the range of the caller's field (all 6 fields x 7 values)
+					if t.p.Struct {
+						continue
+					}
+					var rb string
+					rb, predictedDecodable = formNumberReply(k)
+					kind = "form"
+					class = fmt.Sprintf("%q", rb)
+					route = routes["raw-reply-form"]
+					body = []byte(rb)
+					result = new(formNums)
 				case "status":
 					class = textClasses[r.Intn(len(textClasses))]
 					if t.p.HTTP && (class == "bytes" || class == "ctrl") {
@@ -558,7 +619,7 @@ func main() {
 					settings = append(settings, erpc.WithXferPipe([]byte(pp)...))
 					class += "|pipe=" + pp
 				}
-				if mode == "reply-bytes" {
+				if mode == "reply-bytes" || mode == "reply-form" {
 					settings = append(settings, erpc.WithBodyCodec(codec.ID_PLAIN))
 				} else {
 					settings = append(settings, erpc.WithBodyCodec(tok.CodecID(kind)))
@@ -579,7 +640,7 @@ func main() {
 				if !waitDone(c) {
 					core.Add("calls_stuck", 1)
 					oo := getObs(id)
-					if link.A.Health() && link.B.Health() && (atomic.LoadInt32(&oo.completed) > 0 || mode != "ok" && mode != "status" && mode != "mismatch" && mode != "reply-bytes") {
+					if link.A.Health() && link.B.Health() && (atomic.LoadInt32(&oo.completed) > 0 || mode != "ok" && mode != "status" && mode != "mismatch" && mode != "reply-bytes" && mode != "reply-form") {
 						// the request was dealt with, both ends are healthy, nothing runs any more - and the caller never
 						// observes any status: neither OK nor the status that applies
 						core.Result(core.R{ID: id, Verdict: core.Violated, FP: fmt.Sprintf("C04/%s/%s/%s/caller-never-sees-a-status", t.name, mode, kind),
@@ -608,7 +669,7 @@ func main() {
 					} else if rt, _, _ := tok.Decode(result); rt != "R:"+id {
 						fail("ok-wrong-result", fmt.Sprintf("caller OK but result token %q", rt))
 					}
-				case mode == "reply-bytes":
+				case mode == "reply-bytes" || mode == "reply-form":
 					if predictedDecodable && !c.StatusOK() {
 						fail("decodable-reported-as-error", fmt.Sprintf("reply body %s is a JSON document for the result type, caller got %+q", class, got))
 					} else if !predictedDecodable && c.StatusOK() {
@@ -633,7 +694,7 @@ func main() {
 						fail(sym, fmt.Sprintf("expected %+q got %+q", *exp, got))
 					}
 				}
-				if held && mode != "reply-bytes" && c.StatusOK() && atomic.LoadInt32(&o.completed) == 0 { // (the raw-reply handler is not an observed one)
+				if held && mode != "reply-bytes" && mode != "reply-form" && c.StatusOK() && atomic.LoadInt32(&o.completed) == 0 { // (the raw-reply handler is not an observed one)
 					fail("ok-without-handler-completion", "the caller sees OK although the handler did not run to completion")
 				}
 				if mode == "bad-body" && atomic.LoadInt32(&o.entered) > 0 {
